@@ -100,8 +100,10 @@ Decoder::SegmentedPacket::SegmentedPacket(
     , curMessageType(messageType)
     , curSegment(sequenceCounter)
 {
-    payload.resize(size);
-    memcpy(payload.data(), data, size);
+    // keep the message header and the declared payload bytes only; the frame may continue behind the message
+    const size_t messageSize = sizeof(MessageHeader) + reinterpret_cast<const MessageHeader*>(data)->getPayloadLength();
+    payload.resize(messageSize < size ? messageSize : size);
+    memcpy(payload.data(), data, payload.size());
 }
 
 bool Decoder::SegmentedPacket::addSegment(
